@@ -567,6 +567,57 @@ def nat_source_failures(h):
                         'ProcessorError whose cause is the injected exception', (got[1], repr(getattr(e, 'cause', None))[:120]))
 
 
+def nat_load_source_failures(h):
+    """bounded: a LOADED source that fails while its rows are read -- a (descriptor, iterators) pair whose iterator raises at row k
+    (I/O family errors included: they are not 'transient' for a generator, which is finished once it has raised), a data package
+    whose data file is missing or truncated: the run fails with that cause, it never returns normally with the rest of the rows
+    missing, and a dump behind the load writes no descriptor"""
+    import os, tempfile, shutil
+    import tabulator
+    from dataflows import Flow, load, dump_to_path
+    from dataflows.base.exceptions import ProcessorError
+    desc = lambda: {'resources': [{'name': 'r', 'path': 'r.csv', 'schema': {'fields': [{'name': 'a', 'type': 'integer'}]}}]}
+    for cls in (ConnectionResetError, OSError, TimeoutError, BrokenPipeError, tabulator.exceptions.IOError, RuntimeError, ValueError):
+        for n, k in ((6, 0), (6, 3), (6, 6), (250, 120)):
+            marker = cls('injected')
+
+            def gen():
+                for i in range(n):
+                    if i == k:
+                        raise marker
+                    yield {'a': i}
+                if k == n:
+                    raise marker
+            for api in ('process', 'results', 'dump'):
+                d = tempfile.mkdtemp(prefix='c04l_')
+                try:
+                    f = Flow(load((desc(), [gen()])), *([dump_to_path(d)] if api == 'dump' else []))
+                    got = h.run(lambda: f.process() if api == 'dump' else getattr(f, api)())
+                    e = got[2] if got[0] == 'exc' else None
+                    ok = isinstance(e, ProcessorError) and e.cause is marker and not os.path.exists(os.path.join(d, 'datapackage.json'))
+                    h.check(ok, 'dataflows/processors/load.py::load.process_resources', ('pair', cls.__name__, n, k, api),
+                            'ProcessorError whose cause is the injected exception; no descriptor committed',
+                            (got[0], repr(getattr(e, 'cause', None))[:120], sorted(os.listdir(d))))
+                finally:
+                    shutil.rmtree(d, ignore_errors=True)
+    # a data package on disk whose data file went missing / lost its tail between the dump and the load
+    for damage in ('missing', 'second-of-two-missing'):
+        d = tempfile.mkdtemp(prefix='c04p_')
+        try:
+            Flow([{'a': i, 'b': 'x'} for i in range(5)], [{'c': i} for i in range(3)], dump_to_path(os.path.join(d, 'pkg'))).process()
+            os.remove(os.path.join(d, 'pkg', 'res_1.csv' if damage == 'missing' else 'res_2.csv'))
+            for api in ('results', 'dump'):
+                out = os.path.join(d, 'out_' + api)
+                f = Flow(load(os.path.join(d, 'pkg', 'datapackage.json')), *([dump_to_path(out)] if api == 'dump' else []))
+                got = h.run(lambda: f.process() if api == 'dump' else f.results())
+                h.check(got[0] == 'exc' and not os.path.exists(os.path.join(out, 'datapackage.json')),
+                        'dataflows/processors/load.py::load.process_resources', ('package', damage, api),
+                        'the run fails; no descriptor committed', (got[0], str(got[1])[:100] if got[0] == 'exc' else
+                                                                   [len(r) for r in got[1][0]] if api == 'results' else 'returned normally'))
+        finally:
+            shutil.rmtree(d, ignore_errors=True)
+
+
 def nat_rejected_items(h):
     """bounded: an iterable / generator SOURCE holding an item the loader does not accept (None, a bare string, a list among dicts, a
     dict among lists) at the first, a middle, the last position, inside and beyond the inference sample: the run FAILS (it never
